@@ -259,7 +259,7 @@ func checkC14(r *Report) {
 	e := runEffect(p)
 	pathTrusted(r)
 	effectTrusted(r)
-	r.Explain = "Structural clauses of 'the in-memory client reports what was last added'. C14.a NOOP-STORE (deny-list, expected count zero, armed by a positive example analysed on every run): no store in package resolve writes back to s[i] the value just read from s[i] — the shape of AddVersion's replace branch storing the old element instead of the new one. C14.b REPLACE-STORES-NEW: in LocalClient.AddVersion the store into the version slice inside the replace loop stores the parameter. C14.c READ-PURE: Version, Versions, Requirements and MatchingVersions of LocalClient write nothing reachable from the receiver, so lookups cannot change what later lookups report. C14.d ADD-COMPLETE: every return of AddVersion except the one for Deleted versions passes the store of the requirements, the store of the version list and the loop (or helper) that makes dependency packages known. C14.g SORT-AFTER-APPEND: in AddVersion every path from the append of a new version to the store of the version list passes through SortVersions; for npm the position of a version depends on the latest tag of the others, so there is no ordering test on the new element alone that could make the sort unnecessary. C14.f KNOWN-BY-PRESENCE: Versions, Requirements and MatchingVersions decide between 'found' and ErrNotFound on the comma-ok result of a lookup in the client's own table (presence of the key), never on the looked-up value being nil or empty, so a package known only through a requirement (present with no versions) is reported as known by all of them alike. C14.e KEY-COVER: each lookup method reads every leaf component of the key it is given, so a key that was never added cannot be reported as found because it resembles a stored one. Not decided: equivalence with a map model over all histories."
+	r.Explain = "Structural clauses of 'the in-memory client reports what was last added'. C14.a NOOP-STORE (deny-list, expected count zero, armed by a positive example analysed on every run): no store in package resolve writes back to s[i] the value just read from s[i] — the shape of AddVersion's replace branch storing the old element instead of the new one. C14.b REPLACE-STORES-NEW: in LocalClient.AddVersion the store into the version slice inside the replace loop stores the parameter. C14.c READ-PURE: Version, Versions, Requirements and MatchingVersions of LocalClient write nothing reachable from the receiver, so lookups cannot change what later lookups report. C14.d ADD-COMPLETE: every return of AddVersion except the one for Deleted versions passes the store of the requirements, the store of the version list and the loop (or helper) that makes dependency packages known. C14.g SORT-AFTER-APPEND: in AddVersion every path from the append of a new version, and from the replacement of a stored one, to the store of the version list passes through SortVersions; for npm the position of a version depends on the latest tag of the others, so there is no ordering test on the new element alone that could make the sort unnecessary. C14.h ARG-NOT-RETAINED: AddVersion neither reorders the requirement slice it is given nor keeps it: the value stored under the version's key is a copy, so what the client reports cannot change when the caller reuses or edits its slice, and the caller's slice is not sorted behind its back. C14.f KNOWN-BY-PRESENCE: Versions, Requirements and MatchingVersions decide between 'found' and ErrNotFound on the comma-ok result of a lookup in the client's own table (presence of the key), never on the looked-up value being nil or empty, so a package known only through a requirement (present with no versions) is reported as known by all of them alike. C14.e KEY-COVER: each lookup method reads every leaf component of the key it is given, so a key that was never added cannot be reported as found because it resembles a stored one. Not decided: equivalence with a map model over all histories."
 	fns := pkgFuncs(p, "resolve")
 	r.floor("C14.a/NOOP-STORE", "functions of package resolve scanned", len(fns), 100)
 	nIdxStores := 0
@@ -343,6 +343,7 @@ func checkC14(r *Report) {
 		knownByPresenceRule(r, p, "C14.f/KNOWN-BY-PRESENCE", "(*resolve.LocalClient)."+m)
 	}
 	sortAfterAppendRule(r, p, "C14.g/SORT-AFTER-APPEND")
+	argNotRetainedRule(r, p, e, "C14.h/ARG-NOT-RETAINED")
 	n := readPureRule(r, p, e, "C14.c/READ-PURE", "resolve.LocalClient")
 	r.floor("C14.c/READ-PURE", "resolve.Client methods of LocalClient", n, 4)
 }
@@ -1083,16 +1084,25 @@ func sortAfterAppendRule(r *Report, p *Prog, rule string) {
 		return
 	}
 	loops := naturalLoops(f)
-	// the store of the version list outside any loop
+	// the store of the version list outside any loop (a block in which SortVersions
+	// precedes the store is not a stop: reaching it means the sort was passed)
 	stores := map[*ssa.BasicBlock]bool{}
+	nStores := 0
 	for _, b := range f.Blocks {
 		if innermostLoop(loops, b) != nil {
 			continue
 		}
+		sorted := false // a SortVersions call earlier in the same block
 		for _, in := range b.Instrs {
+			if staticCalleeName(in) == "resolve.SortVersions" {
+				sorted = true
+			}
 			if mu, ok := in.(*ssa.MapUpdate); ok {
 				if fv := nearestField(mu.Map); fv != nil && fieldOwnerKey(p, fv) == "resolve.LocalClient.PackageVersions" {
-					stores[b] = true
+					nStores++
+					if !sorted {
+						stores[b] = true
+					}
 				}
 			}
 		}
@@ -1120,8 +1130,122 @@ func sortAfterAppendRule(r *Report, p *Prog, rule string) {
 			}
 		}
 	}
+	// a replaced element changes the attributes the order depends on (npm's latest tag) just as a new one does
+	nRep := 0
+	for _, b := range f.Blocks {
+		for i, in := range b.Instrs {
+			st, ok := in.(*ssa.Store)
+			if !ok {
+				continue
+			}
+			ia, ok := st.Addr.(*ssa.IndexAddr)
+			if !ok || !strings.HasSuffix(ia.X.Type().String(), "[]deps.dev/util/resolve.Version") {
+				continue
+			}
+			nRep++
+			key := fmt.Sprintf("%s: replacement of a version #%d is followed by SortVersions", fnKey(f), nRep)
+			path := mustPassFrom(b, i, stores, func(x ssa.Instruction) bool {
+				return staticCalleeName(x) == "resolve.SortVersions"
+			}, true)
+			if path != nil {
+				r.bad(rule, key, p.pos(st.Pos()), "a path from the replacement of a stored version to the store of the version list skips SortVersions: the new attributes (npm's latest tag) can change where the version belongs, so the list keeps the order that was right for the old attributes and disagrees with MatchingVersions", pathPositions(p, path)...)
+			} else {
+				r.ok(rule, key, p.pos(st.Pos()), "every path to the store of the version list calls SortVersions")
+			}
+		}
+	}
+	r.floor(rule, "replacements of a stored version in AddVersion", nRep, 1)
 	r.floor(rule, "appends to the version list in AddVersion", n, 1)
-	if len(stores) == 0 {
+	if nStores == 0 {
 		r.bad(rule, fnKey(f)+": store of the version list", p.pos(f.Pos()), "no store to PackageVersions outside a loop: anchor lost")
+	}
+}
+
+// argNotRetainedRule: see checkC14 (C14.h).
+func argNotRetainedRule(r *Report, p *Prog, e *Effect, rule string) {
+	f := p.lookupFn("(*resolve.LocalClient).AddVersion")
+	if f == nil {
+		r.bad(rule, "(*resolve.LocalClient).AddVersion", "", "function not found: anchor lost")
+		return
+	}
+	var deps *ssa.Parameter
+	k := -1
+	for i, prm := range f.Params {
+		if strings.HasSuffix(prm.Type().String(), "[]deps.dev/util/resolve.RequirementVersion") {
+			deps, k = prm, i
+		}
+	}
+	if deps == nil {
+		r.bad(rule, fnKey(f)+": requirement slice parameter", p.pos(f.Pos()), "no []RequirementVersion parameter: anchor lost")
+		return
+	}
+	// is v the parameter itself (not a copy)?
+	var isParam func(v ssa.Value, d int) bool
+	isParam = func(v ssa.Value, d int) bool {
+		if d > 6 || v == nil {
+			return false
+		}
+		switch x := v.(type) {
+		case *ssa.Parameter:
+			return x == deps
+		case *ssa.Phi:
+			for _, ed := range x.Edges {
+				if isParam(ed, d+1) {
+					return true
+				}
+			}
+		case *ssa.Slice:
+			return isParam(x.X, d+1)
+		case *ssa.UnOp:
+			if al, ok := x.X.(*ssa.Alloc); ok && x.Op == token.MUL && al.Referrers() != nil {
+				for _, rf := range *al.Referrers() {
+					if st, ok := rf.(*ssa.Store); ok && st.Addr == al && isParam(st.Val, d+1) {
+						return true
+					}
+				}
+			}
+		}
+		return false
+	}
+	_ = k
+	nUses := 0
+	bad := false
+	for _, b := range f.Blocks {
+		for _, in := range b.Instrs {
+			switch x := in.(type) {
+			case *ssa.MapUpdate:
+				if isParam(x.Value, 0) {
+					nUses++
+					bad = true
+					r.bad(rule, fnKey(f)+": requirement slice stored", p.pos(x.Pos()), "the caller's requirement slice itself is stored in the client: when the caller reuses or edits the slice, what Requirements reports for this version changes")
+				}
+			case *ssa.Call:
+				sc := x.Call.StaticCallee()
+				if sc == nil {
+					continue
+				}
+				for j, a := range x.Call.Args {
+					if !isParam(a, 0) {
+						continue
+					}
+					nUses++
+					writes := sliceMutators[fullName(sc)] && j == 0
+					if s := e.sums[sc]; s != nil && j < maxParam {
+						for _, o := range s.writes {
+							if o.p&(1<<uint(2*j)) != 0 {
+								writes = true
+							}
+						}
+					}
+					if writes {
+						bad = true
+						r.bad(rule, fnKey(f)+": requirement slice passed to "+fnKey(sc), p.pos(x.Pos()), "the caller's requirement slice is handed to a function that reorders its argument: AddVersion sorts the caller's data in place")
+					}
+				}
+			}
+		}
+	}
+	if !bad {
+		r.ok(rule, fnKey(f)+": requirement slice", p.pos(f.Pos()), "the parameter is copied before it is sorted and stored")
 	}
 }
